@@ -6,7 +6,8 @@ import PraatModel.Lemmas.Strip
 # C01 — field-level codecs of the TextGrid text formats (the part of the round trip that is about ALL labels)
 
 Whole-file round trip is tied to the code by the correspondence run (emitted text and parse result compared byte
-for byte with the Lean emitters / parsers); what is proved here holds for every label, of any length:
+for byte with the Lean emitters / parsers) and, for the short format, PROVED for every textgrid in Props/C01Full.lean
+(`C01.parseShort_emit`); what is proved here holds for every label, of any length:
 quote doubling is inverted by both readers, for labels full of quotes, runs of quotes at either end, newlines.
 -/
 namespace C01
